@@ -38,12 +38,12 @@ func (sh *shape) focus() ([]*IntNode, []string, Node) {
 		return nil, []string{""}, sh.prim
 	case sh.sl != nil:
 		ns := []*IntNode{sh.sl.El}
-		var ps []string
-		for i, e := range sh.sl.inEls {
+		for _, e := range sh.sl.inEls {
 			ns = append(ns, e)
-			ps = append(ps, idx(i))
 		}
-		return ns, ps, nil
+		// every element position belongs to the catching element schema (the elements may come
+		// from the input or from the slice's default)
+		return ns, []string{idx(0), idx(1), idx(2)}, nil
 	}
 	if in, ok := sh.top.Kids[0].(*StructNode); ok {
 		return []*IntNode{in.Kids[0].(*IntNode)}, []string{sh.top.Keys[0] + "." + in.Keys[0]}, nil
